@@ -130,6 +130,8 @@ class Pipe:
         self.streams: list = []  # stream objects (layers) created on this pipe
         self.writes_after: list = []
         self.eof_reads = 0
+        self.neg_written: int | None = None  # client->server offset where proxy negotiation ended (set at splice)
+        self.neg_sent: int | None = None  # server->client offset where proxy negotiation ended
         self.truncate_at: int | None = None  # server->client stream ends (EOF) after this many bytes
         self.noseg_until = 0  # server->client offset below which reads are not segmented (SOCKS negotiation)
 
@@ -285,7 +287,7 @@ class World:
 
     def do_read(self, stream, max_bytes, timeout, seg=None) -> bytes:
         pipe = stream.pipe
-        op = self._rec("read", pipe, max_bytes=max_bytes, timeout=timeout, layer=stream.layer)
+        op = self._rec("read", pipe, max_bytes=max_bytes, timeout=timeout, layer=stream.layer, r_off=pipe.delivered)
         self._elig(op)
         if pipe.client_closed:
             self._done(op)
@@ -344,7 +346,8 @@ class World:
     def do_write(self, stream, data: bytes, timeout) -> None:
         pipe = stream.pipe
         data = bytes(data)
-        op = self._rec("write", pipe, data=data, timeout=timeout, layer=stream.layer, tls_depth=len(pipe.tls))
+        op = self._rec("write", pipe, data=data, timeout=timeout, layer=stream.layer, tls_depth=len(pipe.tls),
+                       w_off=len(pipe.written))
         if not data:
             self._done(op)
             return
